@@ -19,7 +19,7 @@ Proof. reflexivity. Qed.
 Theorem C04_generated_persist_shape :
   persist_swap_under_lock = true /\ persist_del_cancels_add = true /\ persist_del_drops_update = true /\
   persist_cancelled_del_removed = true /\ persist_batch_order = [GAdd; GUpdate; GDel] /\
-  persist_confirm_after_batch = true /\ persist_confirm_guarded = true.
+  persist_confirm_after_batch = true /\ persist_confirm_guarded = true /\ persist_settled_confirmed = true /\ persist_confirm_counts = true.
 Proof. repeat split; reflexivity. Qed.
 Theorem C04_generated_badger_not_stubs : badger_stub_iterate_by_prefix_from = false /\ badger_stub_delete_by_prefix = false /\
   badger_stub_keys_by_prefix_count = false /\ badger_stub_iterate_by_prefix = false.
